@@ -434,6 +434,7 @@ func runC02(c *eng.Ctx) {
 		visits := eng.Find(fn, eng.PlainCallTo("storage.VolumeFileScanner).VisitNeedle"))
 		c.Ob("PROV-scan", eng.FuncName(fn)+" one-visit", len(visits) == 1 && eng.InCycle(visits[0].Block()), fn.Pos(), "each record header read is followed by exactly one visit")
 		c.ErrChecked("ERR-scan", "visit", fn, visits, "a visitor error stops the scan")
+		c.ErrChecked("ERR-scan", "header", fn, eng.Find(fn, eng.PlainCallTo("needle.ReadNeedleHeader")), "a record header that cannot be read ends the scan with an error (end of file is the only clean stop)")
 	}
 }
 
